@@ -47,14 +47,18 @@ def queries(ctx):
                     unwind=8, unwindset=["expand_array.0:11", "memset.0:%d" % max(41, 8 * (nb0 + nb1 + more) + 1)], checks=["bounds", "pointer"],
                     object_bits=10, kf=(KF_MEM if in_class else None), units=UNITS, timeout=900, tiers=tiers,
                     info=dict(ioa_info, bounds={"infos": nb0 + nb1 + more, "growths": 1 + more})))
-    SN = {1: "get_get", 2: "get_set", 3: "get_tas", 4: "get_resize", 5: "set_tas_resize"}
-    for sc in (1, 2, 3, 4, 5):
+    SN = {1: "get_get", 2: "get_set", 3: "get_tas", 4: "get_resize", 5: "set_tas_resize", 6: "probe"}
+    for sc in (1, 2, 3, 4, 5, 6):
         for R in ((2, 3) if ctx.thorough else (2,)):
-            tiers = ("quick", "thorough") if (R == 2 and sc in (1, 3)) else ("thorough",)
+            tiers = ("quick", "thorough") if (R == 2 and sc in (1, 3, 6)) else ("thorough",)
             if ctx.tier not in tiers:
                 continue
+            # fields no thread writes in the scenario (a store would be reported as INTERNAL failure): entry descriptors, list links, registry max_id,
+            # array back pointers; the array pointer / size only where no resize happens
+            ro = ["parsec_info_entry_s.%d" % k for k in range(1, 9)] + ["parsec_list_item_s.1", "parsec_list_item_s.2", "parsec_info_s.2",
+                  "parsec_info_object_array_s.3", "parsec_info_object_array_s.5"] + (["parsec_info_object_array_s.2", "parsec_info_object_array_s.4"] if sc not in (4, 5) else [])
             qs.append(Q("s_%s_r%d" % (SN[sc], R), [], defs=["SCEN=%d" % sc], engine="S", units=[U, "parsec/class/info.h", "parsec/class/parsec_rwlock.c", "parsec/class/list.h"],
-                        gen=seqir(["hs.c", "repo:parsec/class/parsec_rwlock.c", "repo:parsec/class/parsec_list.c"], threads=["thread0", "thread1"], rounds=R, drain=True, benign=["nanosleep"]),
+                        gen=seqir(["hs.c", "repo:parsec/class/parsec_rwlock.c", "repo:parsec/class/parsec_list.c"], threads=["thread0", "thread1"], rounds=R, drain=True, benign=["nanosleep"], ro_fields=ro),
                         unwind=8, timeout=2400, slow=True, tiers=tiers,
                         info={"symbolic": ["schedule: every SC interleaving with <= %d scheduling slots per thread, then deterministic drain" % R],
                               "functions": ["parsec_info_get", "parsec_info_set", "parsec_info_test_and_set", "parsec_ioa_resize_and_rdlock", "parsec_info_lookup_by_iid",
